@@ -1782,7 +1782,9 @@ bool TypeChecker::checkExpression(expression_t expr)
         break;
 
     case SPAWN: {
-        template_t* temp = document.find_dynamic_template(expr[0].get_symbol().get_name());
+        // an undeclared name leaves a constant without a symbol in operand 0
+        const symbol_t templ_sym = expr[0].get_symbol();
+        template_t* temp = (templ_sym == symbol_t()) ? nullptr : document.find_dynamic_template(templ_sym.get_name());
         if (!temp) {
             handleError(expr, "It appears your trying to spawn a non-dynamic template");
             return false;
@@ -1807,7 +1809,9 @@ bool TypeChecker::checkExpression(expression_t expr)
     }
 
     case NUMOF: {
-        template_t* temp = document.find_dynamic_template(expr[0].get_symbol().get_name());
+        // an undeclared name leaves a constant without a symbol in operand 0
+        const symbol_t templ_sym = expr[0].get_symbol();
+        template_t* temp = (templ_sym == symbol_t()) ? nullptr : document.find_dynamic_template(templ_sym.get_name());
         if (temp) {
             type = type_t::create_primitive(Constants::INT);
         } else {
